@@ -54,6 +54,10 @@ CLAIMED["C10"] = ("full on the model", "6/C10", "Lean 4 proof on the code-genera
   "if_true, if_false, if_undefined, if_error_propagates, for_unrolls, for_empty, iteration_shape, for_count_*. Tie: model vs real assembler on generated programs; twin = .if replaced by the selected branch, .for by one block per iteration; hand-written families (zero / non-zero / negative / undefined conditions with and without else, empty / single / many iterations, bounds from constants and macro parameters, nested loops, labels in bodies).",
   "Loop counts are bounded by the generator; Python's recursion limit is modelled by a nesting budget of 400.")
 
+CLAIMED["C15"] = ("partial: every scanner loop proved terminating; parser fuel sufficiency and the composition over all scanner states by stream only", "6/C15", "Lean 4 proof that the fuel of every hand-written loop of the scanner model suffices (induction on the remaining input; the model returns OUT-OF-FUEL exactly where the Python loop would not terminate), plus termination of the table encoder, the IPS writer and the nesting-bounded code generator; differential correspondence under a per-input watchdog",
+  "acceptRun_terminates + acceptRun_sites (all call sites, incl. the negated \\n\\0 run), lineComment_terminates, blockComment_terminates, quoted_terminates, scanLoop_progress / scanLoop_no_progress_raises (the outer loop never repeats a state), gen_budget_exhausted, ipsWrite_fuel, C18.toBytes_fuel. Tie: S7 (exhaustive short strings, lexeme sequences, mutants of samples and generated programs, both lexing states), S6 (token sequences exhaustively to length 2/3 and random to 30), S4 (mutants, recursive macros, self-including files, degenerate loops) — the real code must return within the watchdog, and agree with the model, which never answers OUT-OF-FUEL.",
+  "Time bounds are not proved; Python's recursion limit and open-file limit are modelled by a nesting budget (outcomes are compared as rejected/accepted there).")
+
 NOT_YET = {}
 
 def main():
